@@ -25,6 +25,7 @@ By convention, the folder "web" in the get_store() holds web interface and can b
 
 """
 from os import makedirs, name, remove
+import os.path
 from pathlib import Path
 import json
 from io import BytesIO
@@ -413,17 +414,27 @@ class FileStore(Store):
         metadata["fileinfo"]["filesystem_path"] = str(self.path_for_key(key).resolve())
         return Metadata(metadata).as_dict()
 
+    def _inside_root(self, p, key):
+        """Refuse keys (e.g. with '..' components or a leading slash) whose path would leave the root directory."""
+        root = os.path.normpath(str(self.path))
+        normalized = os.path.normpath(str(p))
+        if normalized != root and not normalized.startswith(root.rstrip("/\\") + os.sep):
+            raise KeyNotSupportedStoreException(
+                "Key points outside of the file store root", key=key, store=self
+            )
+        return p
+
     def path_for_key(self, key):
         if key in (None, ""):
             return self.path
         p = self.path / key
         assert p.name != self.METADATA
-        return p
+        return self._inside_root(p, key)
 
     def metadata_path_for_key(self, key):
         p = self.path / key
         assert p.name != self.METADATA
-        return p.parent / self.METADATA / (p.name + ".json")
+        return self._inside_root(p.parent / self.METADATA / (p.name + ".json"), key)
 
     def get_bytes(self, key):
         if not self.path_for_key(key).exists():
@@ -470,6 +481,8 @@ class FileStore(Store):
         return self.finalize_metadata(metadata, key=key, is_dir=False)
 
     def store(self, key, data, metadata):
+        if self.path_for_key(key) == self.path:
+            raise KeyNotSupportedStoreException(key=key, store=self)
         self.path_for_key(key).parent.mkdir(parents=True, exist_ok=True)
         self.path_for_key(key).write_bytes(data)
         self.store_metadata(
